@@ -498,3 +498,56 @@ def xcanon_facts(node, env, stop=None, positional=False):
     for e, pol in facts(node, stop):
         out.add(canon_fact(expand(e, env, at=(e if positional else None)), pol))
     return out
+
+
+def iter_source(loop):
+    """For `for <target> in <iter>`: when the iterable is (a view of) a comprehension reachable through local names, return
+    (comprehension node, base expression of the loop's iterable, view) with view in ('items', 'keys', 'values', None)."""
+    it = loop.iter
+    view = None
+    if isinstance(it, ast.Call) and isinstance(it.func, ast.Attribute) and it.func.attr in ("items", "keys", "values") and not it.args:
+        view, it = it.func.attr, it.func.value
+    base = it
+    if isinstance(it, ast.Name):
+        r = reaching_def(it.id, loop, calls=False, containers=True)
+        if r is None:
+            return None, base, view
+        it = r[0]
+    if isinstance(it, (ast.DictComp, ast.ListComp, ast.SetComp, ast.GeneratorExp)) and len(it.generators) == 1:
+        return it, base, view
+    return None, base, view
+
+
+def iter_facts(loop):
+    """Conditions that held for every element when the collection the loop iterates was built: the `if` clauses of the
+    comprehension behind the loop's iterable, rewritten in terms of the loop's own target names.  Only for dict comprehensions
+    iterated by .items() / keys (keys are distinct) and with (key, value) / key targets that mirror the comprehension.
+    -> list of (expr copy, polarity); empty when nothing can be said.  The facts speak about the moment the collection was built:
+    the caller decides whether they still hold."""
+    comp, base, view = iter_source(loop)
+    if not isinstance(comp, ast.DictComp):
+        return []
+    g = comp.generators[0]
+    ren = {}
+    if view == "items" and isinstance(loop.target, ast.Tuple) and len(loop.target.elts) == 2 and all(isinstance(x, ast.Name) for x in loop.target.elts):
+        if isinstance(comp.key, ast.Name):
+            ren[comp.key.id] = loop.target.elts[0].id
+        if isinstance(comp.value, ast.Name):
+            ren[comp.value.id] = loop.target.elts[1].id
+    elif view in (None, "keys") and isinstance(loop.target, ast.Name) and isinstance(comp.key, ast.Name):
+        ren[comp.key.id] = loop.target.id
+    else:
+        return []
+    out = []
+    for i_ in g.ifs:
+        for e, pol in split(i_, True):
+            names = {x.id for x in ast.walk(e) if isinstance(x, ast.Name)}
+            comp_locals = {x.id for x in ast.walk(g.target) if isinstance(x, ast.Name)}
+            if (names & comp_locals) - set(ren):
+                continue
+            e2 = _clone(e)
+            for x in ast.walk(e2):
+                if isinstance(x, ast.Name) and x.id in ren:
+                    x.id = ren[x.id]
+            out.append((e2, pol))
+    return out
